@@ -250,14 +250,22 @@ PLAN["C01"] = {
         _c01_gen("gen_castle_white_complete", 2, 14, ('quick', 'thorough'), 3600, 7, 40),
         _c01_gen("gen_castle_black_sound", 2, 14, ('quick', 'thorough'), 3600, 7, 40),
         _c01_gen("gen_castle_black_complete", 2, 14, ('quick', 'thorough'), 3600, 7, 40),
-        _c01_gen("gen_q_kp_kn_white_sound", 1, 8, ("quick", "thorough"), 3600, 8, 16),
-        _c01_gen("gen_q_kp_kn_white_complete", 1, 8, ("quick", "thorough"), 3600, 8, 16),
-        _c01_gen("gen_q_kp_kn_black_sound", 1, 8, ("quick", "thorough"), 3600, 8, 16),
+        _c01_gen("gen_q_kp_kn_white_sound", 1, 8, ("thorough",), 3600, 8, 16),
+        _c01_gen("gen_q_kp_kn_white_complete", 1, 8, ("thorough",), 3600, 8, 16),
+        _c01_gen("gen_q_kp_kn_black_sound", 1, 8, ("thorough",), 3600, 8, 16),
         _c01_gen("gen_q_kp_kn_black_complete", 1, 8, ("thorough",), 3600, 8, 16),
-        _c01_gen("gen_q_kp_kp_ep_white_sound", 1, 8, ("quick", "thorough"), 3600, 8, 12),
+        _c01_gen("gen_q_kp_kp_ep_white_sound", 1, 8, ("thorough",), 3600, 8, 12),
         _c01_gen("gen_q_kp_kp_ep_white_complete", 1, 8, ("thorough",), 3600, 8, 12),
-        _c01_gen("gen_q_kp_kp_ep_black_sound", 1, 8, ("quick", "thorough"), 3600, 8, 12),
-        _c01_gen("gen_q_kp_kp_ep_black_complete", 1, 8, ("quick", "thorough"), 3600, 8, 12),
+        _c01_gen("gen_q_kp_kp_ep_black_sound", 1, 8, ("thorough",), 3600, 8, 12),
+        _c01_gen("gen_q_kp_kp_ep_black_complete", 1, 8, ("thorough",), 3600, 8, 12),
+        _c01_gen("gen_q_kpp_knn_white_sound", 2, 8, ("quick", "thorough"), 3600, 8, 32, 2),
+        _c01_gen("gen_q_kpp_knn_white_complete", 2, 8, ("quick", "thorough"), 3600, 8, 32, 2),
+        _c01_gen("gen_q_kpp_knn_black_complete", 2, 8, ("quick", "thorough"), 3600, 8, 32, 2),
+        _c01_gen("gen_q_kp_kpn_ep_white_sound", 1, 8, ("thorough",), 3600, 8, 16),
+        _c01_gen("gen_q_kp_kpn_ep_white_complete", 1, 8, ("quick", "thorough"), 3600, 8, 16),
+        _c01_gen("gen_q_kp_kpn_ep_black_complete", 1, 8, ("thorough",), 3600, 8, 16),
+        _c01_gen("gen_q_kpp_kp_ep_white_complete", 2, 8, ("quick", "thorough"), 3600, 8, 24),
+        _c01_gen("gen_q_kpp_kp_ep_black_complete", 2, 8, ("quick", "thorough"), 3600, 8, 24),
         _c01_gen("gen_castle_n_white_sound", 2, 14, ("quick", "thorough"), 3600, 7, 40),
         _c01_gen("gen_castle_n_white_complete", 2, 14, ("thorough",), 3600, 7, 40),
         _c01_gen("gen_castle_n_black_sound", 2, 14, ("quick", "thorough"), 3600, 7, 40),
